@@ -236,13 +236,13 @@ ApplyReply(m, reply) ==
 (***************************************************************************)
 (* Heartbeat.                                                              *)
 (***************************************************************************)
-\* first half: everything up to the await.  Returns [m, req, st] where st is
+\* first half: everything up to the await, given the outcome r = [m, status] of the ingest phase.
+\* Returns [m, req, st] where st is
 \*   "ingest"  the heartbeat ended in the ingest phase,
 \*   "await"   a request was issued; the heartbeat is suspended,
 \*   "done"    no request; response processed and fees computed,
 \*   "trap"    the message trapped.
-HbFirst(m, B) ==
-  LET r == IngestRun(m, B, FALSE) IN
+HbFirstWith(m, r) ==
   IF r.status = "trap" THEN [m |-> m, req |-> NoReq, st |-> "trap"]
   ELSE IF r.status # "idle" THEN [m |-> r.m, req |-> NoReq, st |-> "ingest"]
   ELSE IF WillCall(m)
@@ -250,11 +250,89 @@ HbFirst(m, B) ==
             IN [m |-> CountRequest([m EXCEPT !.sync.fetching = TRUE], req), req |-> req, st |-> "await"]
        ELSE [m |-> FeeStep(Process(m)), req |-> NoReq, st |-> "done"]
 
-\* a whole heartbeat whose call (if any) is answered at once
-HbFull(m, B, reply) ==
-  LET f == HbFirst(m, B) IN
+HbFirst(m, B) == HbFirstWith(m, IngestRun(m, B, FALSE))
+
+\* the second half, for a heartbeat whose call (if any) is answered at once
+HbSecond(f, reply) ==
   IF f.st = "await" THEN [m |-> ApplyReply(f.m, reply), req |-> f.req, st |-> "called"]
   ELSE f
+
+\* a whole heartbeat whose call (if any) is answered at once
+HbFull(m, B, reply) == HbSecond(HbFirst(m, B), reply)
+
+(***************************************************************************)
+(* The ingest phase as OBSERVED (trace validation).  IngestRun above fixes *)
+(* how many operations a budget buys (one per input / output, OP_RETURN    *)
+(* included), which is how the code counts today but is not demanded by    *)
+(* any property.  Trace validation therefore takes the number of blocks    *)
+(* completed and the pause position from the log and checks that they are  *)
+(* ADMISSIBLE: never early, never withheld, monotone, progress, and a      *)
+(* budget consumption that is consistent under either way of counting      *)
+(* OP_RETURN outputs.                                                      *)
+(***************************************************************************)
+\* operations done in block b at the logged position <<b, tx index, input index, output index>>
+\* (0-based indices; for a coinbase the logged input index is 1 once its outputs are reached)
+OpsDoneAt(b, ti, ii, oi) ==
+  LET before == SumSeq([x \in 1..ti |-> Len(TxOps(Txs(b)[x]))])
+      t == Txs(b)[ti + 1]
+  IN before + (IF IsCoinbase(t) THEN 0 ELSE ii) + oi
+
+\* cost of the operations k+1 .. k2 of block b: [lo, hi] = without / with OP_RETURN outputs
+OpCost(b, k, k2) ==
+  LET ops == BlockOps(b)
+      isOpRet(i) == ops[i].kind = "out" /\ Outs(ops[i].t)[ops[i].i].a = OpRet
+      n == IF k2 > k THEN k2 - k ELSE 0
+      r == Cardinality({i \in (k + 1)..k2 : isOpRet(i)})
+  IN [lo |-> n - r, hi |-> n]
+
+\* complete `n` blocks starting from m; accumulates cost and flags
+RECURSIVE CompleteBlocks(_, _, _)
+CompleteBlocks(acc, n, first) ==
+  IF n = 0 THEN acc
+  ELSE LET m == acc.m
+           starting == m.ing.b = 0
+           b == IF starting THEN m.T.anchor ELSE m.ing.b
+           k == IF starting THEN 0 ELSE m.ing.k
+           child == StableChild(m)
+           c == OpCost(b, k, NumOps(b))
+       IN IF child = 0
+          THEN [acc EXCEPT !.flags = @ \cup {IF starting THEN "early" ELSE "noStableChildAtCompletion"}]
+          ELSE LET T2 == Advance(m.T, child)
+                   st2 == Append(m.stable, b)
+                   m2 == [m EXCEPT !.stable = st2, !.T = T2, !.ing = NoIng,
+                                   !.next = {p \in m.next : p[2] > Len(st2)},
+                                   !.known = m.known \cap InTree(T2)]
+               IN CompleteBlocks([m |-> m2, lo |-> acc.lo + c.lo, hi |-> acc.hi + c.hi, flags |-> acc.flags],
+                                 n - 1, FALSE)
+
+\* nDone = number of blocks whose ingestion completed in this round; pos = logged position afterwards
+\* (<<>> if no ingestion is in progress).  Returns [m, status, lo, hi, flags].
+IngestObserved(m, nDone, pos) ==
+  LET a == CompleteBlocks([m |-> m, lo |-> 0, hi |-> 0, flags |-> {}], nDone, TRUE)
+      m1 == a.m
+  IN IF Len(pos) = 0
+     THEN [m |-> m1, lo |-> a.lo, hi |-> a.hi,
+           status |-> IF nDone > 0 THEN "worked" ELSE "idle",
+           flags |-> a.flags \cup (IF m1.ing.b # 0 THEN {"ingestionLost"} ELSE {})
+                             \cup (IF m1.ing.b = 0 /\ StableChild(m1) # 0 THEN {"withheld"} ELSE {})]
+     ELSE LET b == pos[1]
+              k2 == OpsDoneAt(b, pos[2], pos[3], pos[4])
+              cont == m1.ing.b # 0
+              k == IF cont THEN m1.ing.k ELSE 0
+              c == OpCost(b, k, k2)
+              fl == (IF b # m1.T.anchor THEN {"notTheAnchor"} ELSE {})
+                    \cup (IF cont /\ b # m1.ing.b THEN {"otherBlock"} ELSE {})
+                    \cup (IF ~cont /\ StableChild(m1) = 0 THEN {"early"} ELSE {})
+                    \cup (IF k2 < k THEN {"wentBack"} ELSE {})
+                    \cup (IF k2 >= NumOps(b) THEN {"pausedAfterLastOperation"} ELSE {})
+          IN [m |-> [m1 EXCEPT !.ing = [b |-> b, k |-> k2]], lo |-> a.lo + c.lo, hi |-> a.hi + c.hi,
+              status |-> "paused", flags |-> a.flags \cup fl]
+
+\* is the observed round admissible for a budget of B operations (B >= 1; a large B = unlimited)?
+BudgetOK(r, B) ==
+  IF r.status = "paused" THEN r.lo <= B /\ B <= r.hi ELSE r.lo <= B
+ProgressOK(m, r, B) ==
+  (B >= 1 /\ (m.ing.b # 0 \/ StableChild(m) # 0)) => (r.hi >= 1 \/ r.status = "worked")
 
 (***************************************************************************)
 (* set_config and upgrade.                                                 *)
